@@ -1,6 +1,7 @@
 import IrVerif.Drive.Util
 import IrVerif.Model.AtomicSave
 import IrVerif.Model.AtomicSaveLinks
+import IrVerif.Model.AtomicSaveConc
 /-! Protocol handler for the C08 model (`asave.run`, `asave.image`, `asave.writeat`).
 
 Request `asave.run`:
@@ -16,7 +17,11 @@ Answer: trace, raised, final state, state at the first failed step (crash), over
   kind "shardedAll": jobs in the order the shard drivers ran them, a failing shard does not stop the others
 Request `asave.resolveL`: links [[loc, abs, target]], gas, requested -> destination path, entry, temp parent, ...
 Request `asave.runL` (kind "saveL" | "shardedL"): the save on a file system with symbolic links.
-Request `asave.parvalid`: is the writer trace in the language of `_write_parallel`? -/
+Request `asave.parvalid`: is the writer trace in the language of `_write_parallel`?
+Request `asave.conc`: concurrent shard drivers interleaved effect by effect (`saveShardedConc`):
+  jobs [[dest, tensors]] (serial writers), sched [[k, p | null]] or "seq" (the sequential schedule, no fault);
+  answer: trace [[k, eff.., failed]], refused, raised, allDone, cleanFaults (no clean-up effect failed),
+  final / crash / crashLast (shared directory + per driver [tmpdir, tmpfile]), newBytes per job. -/
 open Lean IrVerif.Drive
 namespace IrVerif.Drive.AtomicSave
 open IrVerif.AtomicSave
@@ -343,8 +348,56 @@ def parvalid (j : Json) : Except String Json := do
   return obj [("r", Json.bool (parValid cfg (← getNat j "maxWorkers") writer)),
     ("total", toJson (totalSize cfg.tensors))]
 
+/-! ### Concurrent shard drivers -/
+
+def cstJ (univ : List String) (exts : List (Nat × Ext)) (n : Nat) (c : CSt) : Json :=
+  (stJ univ exts c.sh).mergeObj (obj [
+    ("tmps", Json.arr ((List.range n).map fun k =>
+      Json.arr #[Json.bool ((c.procs k).loc.fs.isDir .tmpDir), Json.bool ((c.procs k).loc.fs.file .tmpFile).isSome]).toArray),
+    ("pcs", Json.arr ((List.range n).map fun k => Json.str (match (c.procs k).pc with
+      | .init => "init" | .body _ => "body" | .fin1 _ => "fin1" | .fin2 _ => "fin2"
+      | .done true => "raised" | .done false => "returned")).toArray)])
+
+def conc (j : Json) : Except String Json := do
+  let s0 ← mkSt j
+  let cb ← getBool j "cb"
+  let newMode ← getNat j "newMode"
+  let univ ← getStrs j "universe"
+  let exts ← getExts j "exts"
+  let jobs := (← getJobs j).map (serialJob cb)
+  let schedJ ← j.getObjVal? "sched"
+  let sched ← match schedJ with
+    | Json.str "seq" => pure (seqSched jobs fun _ _ => none)
+    | _ => do
+      let a ← (fromJson? schedJ : Except String (Array Json))
+      a.toList.mapM fun x => do
+        let b ← (fromJson? x : Except String (Array Json))
+        let k ← (fromJson? b[0]! : Except String Nat)
+        let f ← if b[1]!.isNull then pure none else (do return some (← (fromJson? b[1]! : Except String Nat)))
+        return (⟨k, f⟩ : Pick)
+  let res := saveShardedConc newMode jobs sched s0
+  let n := jobs.length
+  let crash := match res.steps.find? (·.failed) with
+    | some st => cstJ univ exts n st.st
+    | none => Json.null
+  let crashLast := match (res.steps.filter (·.failed)).getLast? with
+    | some st => cstJ univ exts n st.st
+    | none => Json.null
+  return obj [
+    ("trace", Json.arr (res.steps.map fun s => Json.arr ([toJson s.k] ++ effJ s.eff ++ [Json.bool s.failed]).toArray).toArray),
+    ("refused", Json.bool res.refused),
+    ("raised", Json.bool (res.refused || anyRaised n res.final)),
+    ("allDone", Json.bool (allDone n res.final)),
+    ("cleanFaults", Json.bool (res.steps.all fun s => !s.failed || (s.eff != .removeTmp && s.eff != .rmdirTmp))),
+    ("writerBodies", Json.bool (jobs.all fun jb => jb.body.all Eff.isWriter)),
+    ("newBytes", Json.arr (jobs.map fun jb => optBytesJ (newBytes newMode jb)).toArray),
+    ("final", cstJ univ exts n res.final),
+    ("crash", crash),
+    ("crashLast", crashLast)]
+
 def handle : Handler := fun m j =>
   match m with
+  | "asave.conc" => some (conc j)
   | "asave.run" => some (run j)
   | "asave.runL" => some (runL j)
   | "asave.resolveL" => some (resolveL j)
